@@ -572,8 +572,11 @@ def run_property(pid: str, tier: str, only_sub: Optional[str] = None) -> int:
         violations=len(violations),
     )
     if only_sub is None:
-        os.makedirs(os.path.join(VERIF, "evidence"), exist_ok=True)
-        with open(os.path.join(VERIF, "evidence", f"{pid}.json"), "w") as f:
+        # evidence is only written for runs against /repo itself; runs against a scratch copy
+        # (VERIF_REPO, used for mutants) go to a scratch directory
+        ev_dir = os.path.join(VERIF, "evidence") if os.path.realpath(REPO) == "/repo" else "/tmp/verif_scratch_evidence"
+        os.makedirs(ev_dir, exist_ok=True)
+        with open(os.path.join(ev_dir, f"{pid}.json"), "w") as f:
             json.dump(ev, f, indent=1, default=str)
 
     for l in lines:
